@@ -50,6 +50,11 @@ func (e *Engine) initStubs() {
 		lo, hi := c.args[0].(*Term), c.args[1].(*Term)
 		v := e.freshVar(st, th, 64, "i")
 		st.logNondet(NondetRec{Kind: "int", T: v})
+		if lo.IsConst() && hi.IsConst() && lo.Int() <= hi.Int() {
+			// fresh variable, non-empty constant range: feasible by construction
+			st.PC = tb.And(st.PC, tb.And(tb.SLe(lo, v), tb.SLe(v, hi)))
+			return v
+		}
 		e.assume(st, tb.And(tb.SLe(lo, v), tb.SLe(v, hi)))
 		return v
 	})
@@ -70,8 +75,7 @@ func (e *Engine) initStubs() {
 		n := int(e.constOf(c.args[0].(*Term), "Choose arity"))
 		v := e.freshVar(st, th, 64, "c")
 		st.logNondet(NondetRec{Kind: "int", T: v})
-		st.PC = tb.And(st.PC, tb.ULt(v, tb.Int64(int64(n))))
-		k := e.concretize(st, v, "Choose")
+		k := e.forkFresh(st, v, n)
 		return tb.Int64(int64(k))
 	})
 	e.stub(V+"Concrete", func(e *Engine, st *State, th *Thread, c *callCtx) Value {
